@@ -117,6 +117,62 @@ def _cipher_cases(tier, rng):
     cases += ["@cipher %d" % i for i in (range(65536) if tier == "thorough" else sorted(set(ids) | set(listed) | set(range(0, 65536, 251))))]
     return [Case(l, "", "registry") for l in cases]
 
+MSG_ENTRIES = ["parse_tls_message_changecipherspec", "parse_tls_message_alert", "parse_tls_message_applicationdata",
+               "parse_tls_message_heartbeat", "parse_tls_message_handshake"]
+PROPS["C03"] = dict(
+    families=[("record", 400), ("message", 200), ("handshake", 100)],
+    corpus_entries=["parse_tls_plaintext", "parse_tls_record_with_header"] + MSG_ENTRIES,
+    mutate_entries=["parse_tls_plaintext", "parse_tls_record_with_header"] + MSG_ENTRIES, mutate_budget=30, mutate_sources=200,
+    small_scope=[("parse_tls_record_with_header", [ct, 771, 4], 1, 4) for ct in (20, 21, 22, 23, 24, 25, 0, 255)] +
+                [(e, [], 1, 3) for e in MSG_ENTRIES if e != "parse_tls_message_heartbeat"] + [("parse_tls_message_heartbeat", [l], 1, 3) for l in (0, 2, 3, 9)],
+    expect_entries=["parse_tls_plaintext", "parse_tls_record_with_header"] + MSG_ENTRIES,
+    spec={"parse_tls_plaintext": "spec.parse_tls_plaintext"},
+    thorough_mult=20,
+)
+PROPS["C16"] = dict(
+    families=[("multi", 500)],
+    corpus_entries=["tls_parser_many", "tls_parser", "parse_tls_plaintext", "parse_dtls_plaintext_records"],
+    mutate_entries=["tls_parser_many", "parse_dtls_plaintext_records"], mutate_budget=25, mutate_sources=150,
+    small_scope=[("tls_parser_many", [], 1, 4), ("parse_dtls_plaintext_records", [], 1, 4), ("tls_parser", [], 1, 3)],
+    expect_entries=["tls_parser_many", "parse_dtls_plaintext_records"],
+    thorough_mult=20,
+)
+
+def _chain_oracle(cases, outs, binp, many, single):
+    """C16: the multi-record parser returns exactly what repeated application of the single-record parser
+    (of the implementation itself) returns; remainder starts at the first record that fails"""
+    import vlib
+    fails = []
+    todo = [(k, vlib.split_line(c.line)[2]) for k, c in enumerate(cases) if c.line.split(" ")[0] == many]
+    state = {k: dict(buf=(bytes.fromhex(h) if h != "-" else b""), pos=0, recs=[], done=False, first_err=None) for k, h in todo}
+    for _round in range(12):
+        active = [k for k in state if not state[k]["done"]]
+        if not active: break
+        lines = ["%s %s" % (single, (state[k]["buf"][state[k]["pos"]:].hex() or "-")) for k in active]
+        res, _ = vlib.run_lines(binp, lines, label="chain")
+        for k, o in zip(active, res):
+            st = state[k]
+            m = re.match(r"\(ok @(\S+)\+(\d+) (.*)\)$", o or "")
+            if not m:
+                st["done"] = True
+                if not st["recs"]: st["first_err"] = o
+                continue
+            remaining = int(m.group(2))
+            consumed = (len(st["buf"]) - st["pos"]) - remaining
+            if consumed <= 0: st["done"] = True; continue
+            st["recs"].append(vlib.strip_offsets(m.group(3))); st["pos"] += consumed
+    for k, h in todo:
+        st = state[k]; o = outs[k]
+        if o is None: continue
+        if st["recs"]:
+            want = "(ok @+%d [%s])" % (len(st["buf"]) - st["pos"], " ".join(st["recs"]))
+            if vlib.strip_offsets(o) != want and not (st["done"] is False):
+                fails.append((cases[k], o, "repeated single-record parsing gives %s" % want[:300]))
+        else:
+            if (o or "").startswith("(ok"):
+                fails.append((cases[k], o, "the first record does not parse (%s) but the multi-record parser returned a value" % st["first_err"]))
+    return fails
+
 def _length_sweep(tier, rng):
     """declared lengths x versions x content types, header only / header + a few bytes (C02: the cap must not
     depend on version or type; Needed must be exact)"""
@@ -279,6 +335,11 @@ def post_oracle(pid, cases, outs):
     """oracles that relate several cases: after reset() or a completed message the parser behaves like a
     fresh one (results and defrag_in_progress() of the continuation equal those of the continuation alone)"""
     fails = []
+    if pid == "C16":
+        import vlib
+        binp = vlib.harness_paths("default")[2]
+        return _chain_oracle(cases, outs, binp, "tls_parser_many", "parse_tls_plaintext") + \
+               _chain_oracle(cases, outs, binp, "parse_dtls_plaintext_records", "parse_dtls_plaintext_record")
     if pid not in ("C07",): return fails
     by_line = {c.line: o for c, o in zip(cases, outs)}
     for c, o in zip(cases, outs):
